@@ -1,8 +1,9 @@
 CONFIG = {
     "id": "C07",
-    "coq_targets": ["Props/C07.v", "Model/AttrCheck.v"],
+    "coq_targets": ["Gen/FormulasInfo.v", "Gen/FormulasAttr.v", "Proofs/FormulasAttrProofs.v",
+                    "Props/C07.v", "Model/AttrCheck.v"],
     "prop_files": ["Props/C07.v"],
-    "gen": [],
+    "gen": ["FormulasInfo", "FormulasAttr"],
     "components": [{
         "name": "attr", "modules": ["Model.Attr", "Model.AttrCheck"],
         "check": "check_case", "monitor": "monitor_case", "model_out": "model_out",
@@ -21,7 +22,27 @@ CONFIG = {
             "LimboWaitHeal listener that cancels in a third of the calls; most cases focus on one quantity so that "
             "consecutive calls chain; everything derives from one splitmix64 state; a case is non-trivial when distinct "
             "as an input term",
-    "trusted": ["what the service reads from the rest of the engine (Stats(target).MaxHP(), EnergyRegen(), "
+    "trusted": [
+        "TRANSLATED from the Go source on every run and proved equal to the model at binary64 (Gen/FormulasAttr.v, "
+        "Gen/FormulasInfo.v; Proofs/FormulasAttrProofs.v; theorem C07_model_formulas_are_the_source): AddTarget "
+        "(energy cap, HP ratio default), SetHP, ModifyHPByAmount, ModifyHPByRatio (both ratio types, the floor, "
+        "the error outcome for another type), the [0,1] clamp, SetStance and SetEnergy clamps, ModifyStance / "
+        "ModifyEnergy / ModifyEnergyFixed amounts (and WHOSE stats they read: the whitelisted assignment stats := "
+        "s.Stats(data.Source) resp. data.Target), ModifySP (64-bit wrap, clamp to [0,5]), the initial 3 skill "
+        "points",
+        "still HAND-WRITTEN (correspondence only): the unknown-target error paths, emitHPChangeEvents (state "
+        "machine, one event per change), StanceBreak / StanceReset announcements, the getters",
+        "translator (harness/cmd/go2coq formulas.go, formulas_specs.go): trusted are the Go front end "
+        "(go/packages, go/types, go/constant), the fixed whitelist and accessor tables (which Go field / method is "
+        "which model accessor), the statement translation listed at the top of formulas.go, and that lit N n d "
+        "(the correctly rounded quotient of two integers below 2^53) is the binary64 the Go compiler stores for "
+        "the literal n/d; the translator fails closed (unknown construct, added or missing assignment, changed "
+        "signature: go2coq exits 1 and the check reports a broken translator obligation)",
+        "for functions that mix effects and arithmetic only the whitelisted statements are translated (the "
+        "statements of one block that assign the named variables, their number fixed; every other assignment to "
+        "those variables or to the inputs must be whitelisted verbatim): the ORDER of effects around the "
+        "arithmetic (event emissions, service calls, which unit receives the energy) stays hand-written and is "
+        "tied by correspondence only","what the service reads from the rest of the engine (Stats(target).MaxHP(), EnergyRegen(), "
                 "AllStanceDMGPercent) is an input of every call: the harness serves it through a scripted modifier.Eval "
                 "(HPBase = max HP, no percent/flat part), the modifier side itself is property C06",
                 "key.Reason is represented by small integers printed as decimal strings"],
@@ -31,14 +52,17 @@ CONFIG = {
                     "listeners do not call the attribute service from inside its events (calls are sequential)",
                     "the chain property compares values with float64 == (a stored +0 may be reported as -0 and vice versa)"],
     "manifest": {
-        "level_text": "Kernel-checked theorems at the binary64 level (Flocq facts about primitive floats) over an "
+        "level_text": "Translator tie (way 1): every clamp and update expression of attribute/add.go and attribute/modify.go is regenerated from the Go source on every run (go2coq FormulasAttr) and proved EQUAL to the model's expressions at binary64; "
+                      "Kernel-checked theorems at the binary64 level (Flocq facts about primitive floats) over an "
                       "executable Gallina model of the attribute service: ranges as an invariant of all call sequences, "
                       "exactly-one-event-iff-changed with old/new = before/after for every call, event chains, break/reset "
                       "announcements; tied to the Go code by exact (bit-level) correspondence of events, errors and getters "
                       "on generated histories plus an independent monitor of the property on the implementation's output.",
-        "level_note": "Coq kernel; hand-written model Model/Attr.v of the repaired code (two fix: commits in "
+        "level_note": "go2coq FormulasAttr translator + kernel-checked equalities generated = model; "
+                      "Coq kernel; hand-written model Model/Attr.v of the repaired code (two fix: commits in "
                       "ModifyHPByRatio); stats of the target are per-call inputs.",
-        "technique": "Coq proof (invariant + per-call specification, induction over op lists) + model/implementation "
+        "technique": "source-to-Coq translation of the formulas with equality proofs + "
+                     "Coq proof (invariant + per-call specification, induction over op lists) + model/implementation "
                      "correspondence + runtime monitor",
         "design_ref": "DESIGN.md section 7, C07",
     },
